@@ -232,3 +232,18 @@ claim(
     '',
     'class-hierarchy exhaustiveness vs bs4 sources + shape rules + string provenance',
 )
+
+claim(
+    'C04',
+    'Decided: (R1, sufficient under the trusted base that bs4 read accessors are pure) every expression whose mypy '
+    'type is a bs4 page element is only ever read: no store/del/augmented assignment through it, no method call '
+    'outside a list of read accessors, no escape into a callable outside the package or a short pure list (233 sites '
+    'classified; Any-typed expressions are listed as gaps and mutator method names on them are findings); (R2) each '
+    'SoupSieve method constructs a fresh matcher and stores it nowhere, nothing reachable from the matching API rebinds '
+    'globals; (R3) the three memo tables are fresh per-matcher lists, appended only under the key variables their '
+    'lookup compares, primary key by identity; (R4) every matcher attribute written outside __init__ is first saved in '
+    'a local of the same activation and restored from it on every non-exceptional path to the exit (the function is '
+    're-entrant). Not decided: equality of answers across two runs / a pristine copy as an observed result.',
+    '',
+    'effect analysis over mypy types + memo discipline + save/restore path rule',
+)
